@@ -19,7 +19,9 @@ SHARED = ["aten::mm", "aten::add", "cudaLaunchKernel", "Memcpy HtoD (Pageable ->
           "élève::中文", "", " leading space", "Trace"]
 
 FIELD_LIKE_KEYS = ["name", "Name", "NAME.", "name (x)", "Ts", "ts", "Dur", "dur (us)", "Cat", "cat", "Pid", "pid", "Tid", "tid",
-                   "Trace name", "Python id", "Ev Idx", "grid", "est. achieved occupancy %"]
+                   "Trace name", "Python id", "Ev Idx", "grid", "est. achieved occupancy %",
+                   # ... and to columns the parser / loader adds to every row
+                   "index", "Index", "end", "End", "iteration", "index_correlation"]
 
 TS_MODES = ["int", "int", "dyadic", "decimal", "intts_fracdur", "int_as_float", "fracts_intdur"]
 
